@@ -12,8 +12,9 @@
 //	ok pc=<hex> x=<i>:<hex>,.. f=<i>:<hex16>,.. w=<addr>:<bb>,.. | <info>
 //	fault | unsupported | illegal | panic <msg> | error <msg>      (each followed by " | <info>")
 //
-// x= lists the integer registers whose value AS SUBSEQUENTLY READ differs from the input state
-// (register 0 is cleared by execInst at the start of every instruction, so it is read as 0);
+// x= lists the integer registers whose value AS SUBSEQUENTLY READ differs from the input state:
+// for register 0 that is what the next instruction reads, which is MEASURED on the real CPU at start
+// (probeZero: today execInst clears RegX[0] and RegF[0] before executing);
 // f= the floating point registers whose float64 bit pattern changed (register 0 likewise);
 // w= every byte a Write call covered or whose content changed, read back from the DRAM.
 package main
@@ -58,23 +59,75 @@ func parseHex(s string) (uint64, bool) {
 	return v, err == nil
 }
 
+// newCPU returns a fresh CPU of the named architecture and its register mask.
+func newCPU(arch string) (device.CPU, uint64) {
+	switch arch {
+	case "rv64":
+		return wrv64.NewCPU(), ^uint64(0)
+	case "rv32":
+		return wrv32.NewCPU(), 0xffffffff
+	case "la64":
+		return wla64.NewCPU(), ^uint64(0)
+	}
+	return nil, 0
+}
+
+// How does the NEXT instruction read register 0?  Measured on the real CPU, once per architecture:
+// x0 := 0x5a, then "addi x1, x0, 0" (RISC-V) / "ori r1, r0, 0" (LoongArch) and look at x1;
+// f0 := 1.0, f2 := 0, then "fadd.s f1, f0, f2" (LoongArch; the RISC-V emulators execute no FP
+// instruction, so nothing reads their f registers) and look at f1.
+type zeroing struct{ x, f bool }
+
+var zeroCache = map[string]zeroing{}
+
+func probeZero(arch string) zeroing {
+	if z, ok := zeroCache[arch]; ok {
+		return z
+	}
+	var z zeroing
+	run := func(inst uint32, prep func(device.CPU)) device.CPU {
+		cpu, _ := newCPU(arch)
+		bus := device.NewBus()
+		d := dram.NewDRAM("code", 0x1000, 4, false)
+		d.Fill(0x1000, []byte{byte(inst), byte(inst >> 8), byte(inst >> 16), byte(inst >> 24)})
+		bus.MapDevice(d)
+		prep(cpu)
+		cpu.SetPC(0x1000)
+		ok := false
+		func() {
+			defer func() { recover() }()
+			ok = cpu.StepRun(bus) == nil
+		}()
+		if !ok {
+			return nil
+		}
+		return cpu
+	}
+	inst := uint32(0x00000093) // addi x1, x0, 0
+	if arch == "la64" {
+		inst = 0x03800001 // ori $r1, $r0, 0
+	}
+	if c := run(inst, func(c device.CPU) { c.SetXReg(0, 0x5a) }); c != nil {
+		z.x = c.GetXReg(1) == 0
+	}
+	if arch == "la64" {
+		if c := run(0x01008801, func(c device.CPU) { c.SetFReg(0, 1.0); c.SetFReg(2, 0); c.SetFReg(1, 5.0) }); c != nil {
+			z.f = c.GetFReg(1) == 0
+		}
+	}
+	zeroCache[arch] = z
+	return z
+}
+
 func step(f []string) (res string, info string) {
 	if len(f) < 3 {
 		return "bad-op", ""
 	}
-	var cpu device.CPU
-	mask := ^uint64(0)
-	switch f[0] {
-	case "rv64":
-		cpu = wrv64.NewCPU()
-	case "rv32":
-		cpu = wrv32.NewCPU()
-		mask = 0xffffffff
-	case "la64":
-		cpu = wla64.NewCPU()
-	default:
+	cpu, mask := newCPU(f[0])
+	if cpu == nil {
 		return "bad-op", ""
 	}
+	zero := probeZero(f[0])
 	w, ok := parseHex(f[1])
 	if !ok || w > 0xffffffff {
 		return "bad-op", ""
@@ -187,20 +240,20 @@ func step(f []string) (res string, info string) {
 	}
 	for i := 0; i < 32; i++ {
 		v := cpu.GetXReg(i)
-		if i == 0 {
-			v = 0 // cleared at the start of the next execInst before any read
-		}
 		in := x0[i]
 		if i == 0 {
-			in = 0
+			in = 0 // the architecture's r0/x0: the reference state has 0 there
+			if zero.x {
+				v = 0 // cleared at the start of the next execInst before any read (measured)
+			}
 		}
 		if v != in {
 			xs = append(xs, fmt.Sprintf("%d:%x", i, v))
 		}
 		fv := math.Float64bits(cpu.GetFReg(i))
 		fin := f0[i]
-		if i == 0 {
-			fv = 0 // p.RegF[0] = 0 at the start of the next execInst
+		if i == 0 && zero.f {
+			fv = 0 // the next execInst clears RegF[0] before reading it (measured)
 		}
 		if fv != fin {
 			fs = append(fs, fmt.Sprintf("%d:%016x", i, fv))
